@@ -690,7 +690,7 @@ def scale_cases(tier, seed):
                     deep = thorough and L in (1, 2, pairs // 2, pairs - 1)
                     add({"op": "xset", "n": n1 + n2, "edges": edges,
                          "L1": L1, "L2": L2, "variant": variant,
-                         "mode": mode}, 1 if deep else 0,
+                         "mode": mode}, 1 if deep else 0, 1500,
                         horizon=60 * pairs)
     return cases
 
